@@ -90,7 +90,9 @@ class BuckGophermapHandler(BaseHandler):
                     if entry.gethost() is None and entry.getport() is None:
                         # If we're using links on THIS server, try to fill
                         # it in for gopher+.
-                        if self.vfs.exists(selector):
+                        # (URL: selectors name no file; root + "URL:..." would
+                        # even be a path next to the document root.)
+                        if selector[0] == "/" and self.vfs.exists(selector):
                             entry.populatefromvfs(self.vfs, selector)
                     self.entries.append(entry)
                 else:  # Info line
